@@ -31,7 +31,7 @@ NOTES = [
     'contracts/c19.py to see the failing obligation read#post-raise(CancelledError).',
     'FIXED defects found by this sidecar: 12d9355 (collect_output releases the byte count), ab0120d (no empty chunk '
     'buffered: \'\' from a split multi-byte character made read() return \'\' without EOF), 99b1b3e (readuntil resumes '
-    'reading after consuming data ahead of a marker), 3acc6dd (collect_output empties the list in place: mixing it '
+    'reading after consuming data ahead of a marker), 7a31306 (collect_output empties the list in place: mixing it '
     'with a stream reader delivered data twice).  Repros: notes/findings/c19_*.py',
 ]
 
@@ -42,7 +42,7 @@ ASSUMPTIONS = [
     'of the locked buffer and keeps the list object (guarantees of data_received / connection_lost / '
     'exception_received, proved here), EOF and connection-lost flags are monotone, _limit is not changed; everything '
     'else it may change is havocked.  That the list object is kept is PROVED for every writer under contract, '
-    'including SSHClientProcess._collect_output (clause buffer-list-object-is-kept, after fix 3acc6dd; feed_recv_buf '
+    'including SSHClientProcess._collect_output (clause buffer-list-object-is-kept, after fix 7a31306; feed_recv_buf '
     'empties with list.clear()).  API-USAGE ASSUMPTION that remains: SSHProcess.feed_recv_buf (setting up a '
     'redirection) and SSHClientProcess.collect_output() take data from the head WITHOUT the read lock, so the '
     '"append only" part of the rely excludes them running while a reader of the same datatype is suspended (whoever '
@@ -822,7 +822,7 @@ collect_one = Spec(
         ('buffer-length-accounting', lambda c: accounted(c)),
         ('flow-control-invariant', lambda c: flow_inv(c)),
         # readers keep a reference to the list (taken even before the read lock): it must be emptied in place, never
-        # replaced - otherwise a woken reader and collect_output() both deliver the same data (fix 3acc6dd)
+        # replaced - otherwise a woken reader and collect_output() both deliver the same data (fix 7a31306)
         ('buffer-list-object-is-kept', lambda c: z3.BoolVal(not c.new_state.heap.get('__list_slot_rebound__'))),
     ])
 collect_one.alias_map_lists = True
